@@ -7,7 +7,7 @@
    awaits).  The schedule (which worker is resumed, with which test outcome) is the input; the
    model is deterministic given the schedule and emits the events the harness also records on
    the implementation.  Definitions only. *)
-From Coq Require Import List ZArith NArith Bool Arith.
+From Coq Require Import List ZArith NArith Bool Arith PrimFloat.
 Import ListNotations.
 From I2N Require Import Model.Retry.
 Local Open Scope nat_scope.
@@ -40,6 +40,8 @@ Record node := mkNode {
   n_mct : option Z;               (* max_concurrent_tries *)
   n_tries : Z;                    (* get_numeric(max_tries, 1) *)
   n_timeout : Z;                  (* test_timeout *)
+  n_budget : float;               (* test_timeout * max_tries, as a float *)
+  n_dt : float; n_dtz : Z;        (* the back-off period round(max(budget / 1000, 0.1), 2): as a float and in hundredths *)
   n_filter_copy : N;              (* pool_filter: 0 reuse/block, 1 copy, 2 anything else *)
   n_own_in_scope : bool; n_shared_in_scope : bool;   (* "own"/"shared" among pool_scope *)
   n_objs : list nobj;
@@ -57,7 +59,7 @@ Record graph := mkGraph { g_nodes : list node; g_workers : list worker; g_root :
 
 Definition dummy_node : node :=
   mkNode true false false false false [] 0 0 [] [] [] [] Global [] [] None
-         (mkCfg false true false false None None []) None 1 0 0 true true [] 0.
+         (mkCfg false true false false None None []) None 1 0 PrimFloat.zero PrimFloat.zero 0 0 true true [] 0.
 Definition nd (g : graph) (i : nat) : node := nth i (g_nodes g) dummy_node.
 Definition wk (g : graph) (w : nat) : worker := nth w (g_workers g) (mkWorker 0 true [] []).
 Definition memn (x : nat) (l : list nat) : bool := existsb (Nat.eqb x) l.
@@ -72,7 +74,8 @@ Inductive phase :=
 | Exited
 | Failed (code : N).                      (* 1 pick from empty, 2 discontinuous, 3 not own, 4 unfinished path, 5 value error, 6 fuel *)
 
-Record wstate := mkW { path : list nat; occ_at : list nat; occ_wait : Z (* hundredths of a second *); ph : phase }.
+(* occ_wait is a binary64 float exactly as in the code (sums of 0.1 are not exact) *)
+Record wstate := mkW { path : list nat; occ_at : list nat; occ_wait : float; ph : phase }.
 
 Record result := mkR { r_node : nat; r_status : status; r_prev : bool (* replayed *) }.
 
@@ -122,7 +125,7 @@ Fixpoint upd_nth {A} (l : list A) (i : nat) (f : A -> A) : list A :=
   | x :: r, O => f x :: r
   | x :: r, S j => x :: upd_nth r j f
   end.
-Definition wst (s : state) (w : nat) : wstate := nth w (ws s) (mkW [] [] 0 Exited).
+Definition wst (s : state) (w : nat) : wstate := nth w (ws s) (mkW [] [] PrimFloat.zero Exited).
 Definition nst (s : state) (i : nat) : nstate := nth i (ns s) (mkN None None [] false None []).
 Definition set_w (s : state) (w : nat) (f : wstate -> wstate) : state :=
   mkS (upd_nth (ws s) w f) (ns s) (r_ps s) (r_pc s) (r_ds s) (r_dc s) (pool s) (job s).
